@@ -115,3 +115,32 @@ package server
 //@   ghost at loop 1: ghost.authz := reset()
 //@   call (*apiServer).resumeStream requires !p.config.TLSClientAuthz || ghost.authz[arg2]["Publish"]
 //@   call Publish requires !p.config.TLSClientAuthz || ghost.authz[req.Stream]["Publish"]
+
+// The effectful functions below the handlers may be entered only from the functions that carry the
+// obligations above (or from the listed server-internal callers, which act for the server itself
+// or for a request that another server's handler already authorised).
+//@ callers (*apiServer).enforcePolicy serves C15: (*apiServer).ensureAuthorizationPermission
+//@ callers (*apiServer).resumeStream serves C15: (*apiServer).Publish, (*publishAsyncSession).publishLoop, (*apiServer).subscribe
+//@ callers (*apiServer).subscribe serves C15: (*apiServer).SubscribeInternal
+//@ callers (*apiServer).SubscribeInternal serves C15: (*apiServer).Subscribe, (*cursorManager).getLatestCursorOffset
+//@ callers (*apiServer).publish serves C15: (*apiServer).Publish, (*apiServer).PublishToSubject
+//@ callers (*apiServer).publishSync serves C15: (*apiServer).publish
+//@ callers (*metadataAPI).CreateStream serves C15: (*apiServer).CreateStream, (*Server).handleCreateStream, (*activityManager).createActivityStream, (*cursorManager).Initialize
+//@ callers (*metadataAPI).DeleteStream serves C15: (*apiServer).DeleteStream, (*Server).handleDeleteStream
+//@ callers (*metadataAPI).PauseStream serves C15: (*apiServer).PauseStream, (*Server).handlePauseStream, (*partition).requestPause
+//@ callers (*metadataAPI).SetStreamReadonly serves C15: (*apiServer).SetStreamReadonly, (*Server).handleSetStreamReadonly
+//@ callers (*metadataAPI).ResumeStream serves C15: (*apiServer).resumeStream, (*Server).handleResumeStream
+//@ callers (*cursorManager).SetCursor serves C15: (*apiServer).SetCursor
+//@ callers (*cursorManager).GetCursor serves C15: (*apiServer).FetchCursor
+
+// ---------------------------------------------------------------------------------------------
+// Telemetry switch (property C19): the collector is built and started only under an enabled configuration.
+//@ func (*Server).Start serves C19
+//@   requires s != nil && s.config != nil && s.telemetry == nil
+//@   call telemetry.New requires s.config.Telemetry.Enabled && arg0.Enabled
+//@   call (*Collector).Start requires old(s.config.Telemetry.Enabled)
+
+//@ func parseTelemetryConfig serves C19
+//@   requires config != nil
+//@   ensures [from-file] viperIsSet(v, "telemetry.enabled") ==> config.Telemetry.Enabled == viperBool(v, "telemetry.enabled")
+//@   ensures [default-kept] !viperIsSet(v, "telemetry.enabled") ==> config.Telemetry.Enabled == old(config.Telemetry.Enabled)
